@@ -21,3 +21,9 @@ fp("dask/array/backends.py", "_numel_masked")
 fp("dask/array/random.py", "_spawn_bitgens", "_wrap_func", "_choice_validate_params", "_apply_random_func",
    "_apply_random", "Generator.choice", "RandomState.choice", "default_rng")
 fp("dask/utils.py", "random_state_data")
+
+# C31
+fp("dask/array/routines.py", "_tensordot", "tensordot", "dot", "vdot", "_chunk_sum", "_sum_wo_cat", "_matmul", "matmul", "outer")
+fp("dask/array/einsumfuncs.py", "einsum", "chunk_einsum")
+fp("dask/array/linalg.py", "_cumsum_blocks", "tsqr", "sfqr", "qr", "svd")
+fp("dask/array/core.py", "unify_chunks")
